@@ -587,3 +587,172 @@ Definition sk_logline_date : list ev :=
   [Call "read_line";
    Call "extracted_datetime";
    Ret].
+
+Definition sk_sequence_search : list ev :=
+  [Call "start_run";
+   Rd "s_end";
+   Rd "started";
+   IfB;
+   IfB;
+   Rd "section_id";
+   Call "results_remove";
+   Call "def_reset";
+   Else;
+   Call "end_run";
+   IfE;
+   Else;
+   IfE;
+   IfB;
+   Rd "started";
+   IfB;
+   Call "def_start";
+   Rd "section_id";
+   Else;
+   Rd "s_end";
+   Rd "section_id";
+   Call "def_stop";
+   Rd "s_end";
+   IfB;
+   Call "def_start";
+   Rd "section_id";
+   Else;
+   IfE;
+   IfE;
+   Call "results_add";
+   Else;
+   Rd "started";
+   Rd "s_body";
+   IfB;
+   Rd "section_id";
+   Call "body_run";
+   IfB;
+   Rd "s_body";
+   Call "results_add";
+   Else;
+   IfE;
+   Else;
+   IfE;
+   IfE].
+
+Definition sk_process_sequence_results : list ev :=
+  [Wr "filter";
+   LoopB;
+   IfB;
+   Continue;
+   Else;
+   IfE;
+   Rd "started";
+   IfB;
+   Continue;
+   Else;
+   IfE;
+   Rd "s_end";
+   IfB;
+   Continue;
+   Else;
+   IfE;
+   Call "end_run_empty";
+   IfB;
+   Rd "section_id";
+   Rd "s_end";
+   Call "results_add";
+   Else;
+   Rd "filter";
+   IfB;
+   Wr "filter";
+   Else;
+   IfE;
+   Rd "filter";
+   Rd "section_id";
+   IfE;
+   LoopE;
+   IfB;
+   Ret;
+   Else;
+   IfE;
+   Rd "filter";
+   LoopB;
+   LoopB;
+   Rd "filter";
+   IfB;
+   IfB;
+   Continue;
+   Else;
+   IfE;
+   Rd "filter";
+   IfB;
+   Rd "filter";
+   IfB;
+   Continue;
+   Else;
+   IfE;
+   Else;
+   IfE;
+   Else;
+   IfE;
+   Call "buffer_append";
+   IfB;
+   Call "flush";
+   Else;
+   IfE;
+   LoopE;
+   LoopE].
+
+Definition sk_searchdef_run : list ev :=
+  [Rd "hint";
+   IfB;
+   Call "hint_search";
+   IfB;
+   Ret;
+   Else;
+   IfE;
+   Else;
+   IfE;
+   Rd "patterns";
+   LoopB;
+   Call "pattern_match";
+   IfB;
+   Break;
+   Else;
+   IfE;
+   LoopE;
+   Ret].
+
+Definition sk_simple_search : list ev :=
+  [Call "def_run";
+   IfB;
+   Ret;
+   Else;
+   IfE;
+   Call "new_result";
+   Call "buffer_append";
+   IfB;
+   Call "flush";
+   Else;
+   IfE].
+
+Definition sk_flush_results_buffer : list ev :=
+  [LoopB;
+   Rd "buffer";
+   TryB;
+   Rd "buffer";
+   Call "slice_buffer";
+   Call "put_result";
+   LoopB;
+   Call "buffer_pop";
+   LoopE;
+   Handler "IndexError";
+   TryE;
+   LoopE].
+
+Definition sk_store_result : list ev :=
+  [Call "groups";
+   IfB;
+   LoopB;
+   Call "group";
+   Call "save_part";
+   LoopE;
+   Else;
+   Call "group";
+   Call "save_part";
+   IfE].
